@@ -54,18 +54,21 @@ Collect(T0, target, direct, sentArg) ==
                  K == KeepFrom(K0, K0)
                  U == {n \in K : sent /\ tis(n) = 0}
                  D == V \ K
-                 \* Dispose of every deleted node: children lose one indirect count (never indirectsent:
-                 \* IsSent is evaluated after the state was set to disposed), no further collection
+                 \* Dispose of every deleted node: children lose one indirect count, and one indirectsent count
+                 \* (while positive) if the deleted node had been sent; no further collection
                  lost(n) == Cardinality({m \in D : T[m].rs /\ n \in Refs(T, m)})
+                 lostSent(n) == Cardinality({m \in D : T[m].rs /\ T[m].st = Sent /\ n \in Refs(T, m)})
                  \* Unsend: indirectsent of every child that is (still) sent and has a positive count goes down by one
                  T1 == [n \in DOMAIN T |->
                           IF n \in D THEN [T[n] EXCEPT !.st = Disposed, !.gone = TRUE, !.refs = IF T[n].rs THEN <<>> ELSE @, !.rs = FALSE]
                           ELSE IF n \in U THEN [T[n] EXCEPT !.st = Ready, !.is = 0, !.i = @ - lost(n)]
                           ELSE [T[n] EXCEPT !.i = IF T[n].d + T[n].i + T[n].is = 0 THEN @ ELSE @ - lost(n)]]
                  dec(n) == Cardinality({u \in U : n \in Refs(T, u)})
+                 Sub0(a, b) == IF a >= b THEN a - b ELSE 0
              IN [n \in DOMAIN T1 |->
-                   IF n \in D \/ n \in U \/ T1[n].st # Sent THEN T1[n]
-                   ELSE [T1[n] EXCEPT !.is = IF @ >= dec(n) THEN @ - dec(n) ELSE 0]]
+                   IF n \in D \/ n \in U THEN T1[n]
+                   ELSE IF T1[n].st # Sent THEN [T1[n] EXCEPT !.is = IF T[n].d + T[n].i + T[n].is = 0 THEN @ ELSE Sub0(@, lostSent(n))]
+                   ELSE [T1[n] EXCEPT !.is = IF T[n].d + T[n].i + T[n].is = 0 THEN Sub0(@, dec(n)) ELSE Sub0(@, dec(n) + lostSent(n))]]
 
 -----------------------------------------------------------------------------
 (* What the client retains according to the table: reachable from direct    *)
